@@ -2,6 +2,8 @@ import Mathlib.Data.List.Nodup
 import Mathlib.Data.List.Perm.Basic
 import SplinkVerif.Lemmas.Rel
 import SplinkVerif.Lemmas.BlockingAnalysisCount
+import SplinkVerif.Lemmas.BlockingAnalysis
+import SplinkVerif.Lemmas.AccSql
 import SplinkVerif.Model.BCountSql
 /-!
 # The counting SQL of `blocking_analysis.py` computes block products (C14, SQL level)
@@ -12,7 +14,10 @@ import SplinkVerif.Model.BCountSql
 * `blocks_eq` — `__splink__block_counts` is, row for row, one row `(count_l, count_r, count_l * count_r)` per block key;
 * `preFilterTotal_eq` — the reported total is the size of the equi-join;
 * `blocks_noKeys_*` — the no-key forms give `|L| · |R|`;
-* `topRows_eq`, `isOrderLimit_spec`, `isOrderLimit_orderLimit` — `n_largest_blocks`.
+* `topRows_eq`, `isOrderLimit_spec`, `isOrderLimit_orderLimit`, `nLargest_spec` — `n_largest_blocks`;
+* `equiJoinSize_eq_model` — the total is the functional model's `BlockingAnalysis.preFilterCount` on coded keys;
+* `concat_eval`, `selfCount_total` — `__splink__df_concat` holds the input rows; the whole self-join pipeline;
+* `rowCounts_dedupe`, `rowCounts_bySd`, `countsOf_bySd` — `_row_counts_per_input_table` = the model's `sdCounts`.
 -/
 namespace SplinkVerif.Lemmas.BCountSql
 open SplinkVerif SplinkVerif.Rel SplinkVerif.Lemmas.Rel SplinkVerif.BCountSql
@@ -485,6 +490,14 @@ theorem blocks_noKeys_two (db : Db) :
 theorem tables_two : tableL true = "input_0" ∧ tableR true = "input_1" ∧ tableL false = nameConcat ∧ tableR false = nameConcat :=
   ⟨rfl, rfl, rfl, rfl⟩
 
+theorem totalOf_single (a b : Nat) :
+    totalOf [[sumVals ([[Val.int (a : Nat), Val.int (b : Nat), Val.int ((a : Nat) * (b : Nat))]].map
+      fun r => r.getD 2 Val.null)]] = a * b := by
+  have h : ((a : Int) * (b : Int)).toNat = a * b := by
+    rw [← Int.natCast_mul]; exact Int.toNat_natCast _
+  show totalOf [[sumStep (Val.int ((a : Nat) * (b : Nat))) Val.null]] = a * b
+  exact h
+
 /-- **No key: `|L| · |R|`** (both set-ups). -/
 theorem preFilterTotal_noKeys (two : Bool) (db : Db) :
     preFilterTotal two [] db = (db (tableL two)).length * (db (tableR two)).length := by
@@ -492,9 +505,9 @@ theorem preFilterTotal_noKeys (two : Bool) (db : Db) :
   rw [total_rows]
   cases two
   · rw [blocks_noKeys_self]
-    simp [sumVals, totalOf, tableL, tableR, ← Int.natCast_mul]
+    exact totalOf_single _ _
   · rw [blocks_noKeys_two]
-    simp [sumVals, totalOf, tableL, tableR, ← Int.natCast_mul]
+    exact totalOf_single _ _
 
 /-! ## The block keys -/
 
@@ -768,5 +781,123 @@ theorem isNLargest_nLargest (two : Bool) (keys : List (Expr × Expr)) (hk : keys
   rw [topRows_eq two keys hk, List.mem_map] at hr
   obtain ⟨k, hk', rfl⟩ := hr
   exact ⟨_, topKey_eval keys _ _ k (length_of_mem_blockKeys keys _ _ k hk')⟩
+
+/-! ## `__splink__df_concat` -/
+
+theorem gen_concat :
+    Gen.BCountSql.self1Concat = concatStmt 7 ["input_0"] ∧
+    Gen.BCountSql.self2Concat = concatStmt 7 ["input_0", "input_1"] ∧
+    Gen.BCountSql.self3Concat = concatStmt 7 ["input_0", "input_1", "input_2"] ∧
+    Gen.BCountSql.self0Concat = concatStmt 7 ["input_0"] ∧
+    Gen.BCountSql.nlSelf1Concat = concatStmt 7 ["input_0"] ∧
+    Gen.BCountSql.nlSelf3Concat = concatStmt 7 ["input_0", "input_1", "input_2"] := ⟨rfl, rfl, rfl, rfl, rfl, rfl⟩
+
+theorem cols_eval_self (row : Row) : ((List.range row.length).map Expr.col).map (·.eval row) = row := by
+  have := keyCols_eval row []
+  rwa [List.append_nil] at this
+
+theorem concatOne_eval (w : Nat) (n : String) (db : Db) (hw : ∀ row ∈ db n, row.length = w) :
+    (concatOne w n).eval db = db n := by
+  rw [concatOne, eval_project, eval_table]
+  conv_rhs => rw [← List.map_id (db n)]
+  apply List.map_congr_left
+  intro row hrow
+  rw [← hw row hrow]
+  exact cols_eval_self row
+
+theorem concatTerm_eval (w : Nat) (n : String) (db : Db) (hw : ∀ row ∈ db n, row.length = w) :
+    (concatTerm w n).eval db = (db n).map fun row => Val.str n :: row := by
+  rw [concatTerm, eval_project, eval_table]
+  apply List.map_congr_left
+  intro row hrow
+  rw [List.map_cons, ← hw row hrow, cols_eval_self]
+  rfl
+
+theorem foldl_union_eval (w : Nat) (db : Db) (ns : List String) (acc : Rel)
+    (hw : ∀ n ∈ ns, ∀ row ∈ db n, row.length = w) :
+    (ns.foldl (fun acc m => Rel.union true acc (concatTerm w m)) acc).eval db
+      = acc.eval db ++ ns.flatMap fun n => (db n).map fun row => Val.str n :: row := by
+  induction ns generalizing acc with
+  | nil => simp
+  | cons m ns ih =>
+    rw [List.foldl_cons, ih _ (fun n hn => hw n (List.mem_cons_of_mem _ hn)), eval_union_all,
+      concatTerm_eval w m db (hw m List.mem_cons_self), List.flatMap_cons, List.append_assoc]
+
+/-- **`__splink__df_concat` holds the rows of the input tables, in order** (prefixed with the table's alias as
+`source_dataset` when there are several), provided every input row has the `w` columns the statement lists. -/
+theorem concat_eval (w : Nat) (names : List String) (hne : names ≠ []) (db : Db)
+    (hw : ∀ n ∈ names, ∀ row ∈ db n, row.length = w) :
+    (concatStmt w names).eval db = concatRows names db := by
+  match names, hne, hw with
+  | [n], _, hw => exact concatOne_eval w n db (hw n List.mem_cons_self)
+  | n :: m :: ns, _, hw =>
+    show ((m :: ns).foldl (fun acc m => Rel.union true acc (concatTerm w m)) (concatTerm w n)).eval db = _
+    rw [foldl_union_eval w db (m :: ns) _ (fun k hk => hw k (List.mem_cons_of_mem _ hk)),
+      concatTerm_eval w n db (hw n List.mem_cons_self)]
+    rfl
+
+/-- the whole self-join pipeline, `__splink__df_concat` included: the total is the size of the equi-join of the
+concatenated rows with themselves -/
+theorem selfCount_total (w : Nat) (names : List String) (hne : names ≠ []) (keys : List (Expr × Expr)) (hk : keys ≠ [])
+    (db : Db) (hw : ∀ n ∈ names, ∀ row ∈ db n, row.length = w) :
+    totalOf ((runStmts db (selfCountStmts w names keys)) nameTotal)
+      = equiJoinSize keys (concatRows names db) (concatRows names db) := by
+  have h := preFilterTotal_eq false keys hk (Db.set db nameConcat ((concatStmt w names).eval db))
+  rw [tables_two.2.2.1, tables_two.2.2.2, set_same] at h
+  rw [← concat_eval w names hne db hw]
+  exact h
+
+/-! ## `_row_counts_per_input_table` -/
+
+theorem rowCounts_dedupe (sd : Expr) (db : Db) :
+    rowCounts true sd db = [[Val.int ((db nameConcat).length : Nat)]] := rfl
+
+/-- one row per distinct value of the source dataset column (NULL included), in the order of first occurrence, holding the
+number of rows with that value -/
+theorem rowCounts_bySd (sd : Expr) (db : Db) :
+    rowCounts false sd db
+      = (((db nameConcat).map sd.eval).eraseDups).map fun s =>
+          [Val.int (((db nameConcat).filter fun r => sd.eval r == s).length : Nat)] := by
+  show (Rel.project [Expr.col 1] (Rel.groupBy [sd] [Agg.countStar] (Rel.table nameConcat))).eval db = _
+  rw [eval_project, eval_groupBy, eval_table, groupRows_count _ (by simp)]
+  unfold grp
+  have hk : (db nameConcat).map (keyOf [sd]) = ((db nameConcat).map sd.eval).map fun v => [v] := by
+    rw [List.map_map]; rfl
+  rw [hk, Lemmas.AccSql.eraseDups_map_inj (fun v : Val => [v]) (fun a b h => by simpa using h), List.map_map,
+    List.map_map]
+  apply List.map_congr_left
+  intro s _
+  simp only [Function.comp, List.map_cons, List.map_nil, Expr.eval, BCountSql.sizeOf, keyOf]
+  simp [List.getD]
+
+theorem code_beq {code : Val → Nat} (hinj : ∀ a b, code a = code b → a = b) (a b : Val) :
+    (code a == code b) = (a == b) := by
+  by_cases h : a = b
+  · subst h; simp
+  · have : code a ≠ code b := fun h' => h (hinj _ _ h')
+    simp [h, this]
+
+/-- **The per-dataset row counts are the functional model's `sdCounts`** for every table `t` whose source-dataset function is an
+injective coding of the values of the source dataset column. -/
+theorem countsOf_bySd (sd : Expr) (db : Db) (t : Blocking.Table) (code : Val → Nat)
+    (hinj : ∀ a b, code a = code b → a = b) (hm : t.m = (db nameConcat).length)
+    (hsd : ∀ i, i < t.m → t.sd i = code (sd.eval ((db nameConcat).getD i []))) :
+    countsOf (rowCounts false sd db) = Lemmas.BA.sdCounts t := by
+  rw [rowCounts_bySd]
+  unfold Lemmas.BA.sdCounts countsOf
+  have hmap : (List.range t.m).map t.sd = ((db nameConcat).map sd.eval).map code := by
+    conv_rhs => rw [← map_range_getD (db nameConcat), List.map_map, List.map_map, ← hm]
+    apply List.map_congr_left
+    intro i hi
+    exact hsd i (List.mem_range.mp hi)
+  rw [hmap, Lemmas.AccSql.eraseDups_map_inj code hinj, List.map_map, List.map_map]
+  apply List.map_congr_left
+  intro s _
+  simp only [Function.comp, Int.toNat_natCast]
+  rw [length_filter_reindex, hm]
+  congr 1
+  apply List.filter_congr
+  intro i hi
+  rw [hsd i (hm ▸ List.mem_range.mp hi), code_beq hinj]
 
 end SplinkVerif.Lemmas.BCountSql
